@@ -679,6 +679,18 @@ def _name_defs(fn: ast.AST, name: str):
     return out
 
 
+MEMO_DECORATORS = ("lru_cache", "cache", "functools.lru_cache", "functools.cache", "cached_property", "functools.cached_property")
+
+
+def memo_decorated(fi: "FunctionInfo") -> Optional[str]:
+    """the caching decorator of a function (lru_cache, cache, ...), or None"""
+    for d in getattr(fi.node, "decorator_list", []):
+        c = attr_chain(d.func if isinstance(d, ast.Call) else d)
+        if c in MEMO_DECORATORS:
+            return c
+    return None
+
+
 def may_be_stored_state(prog: "Program", fi: "FunctionInfo", e: ast.expr, depth: int = 0, pos=None, _seen=None) -> Optional[str]:
     """does expression e (evaluated in fi) possibly denote an object that outlives the call - an attribute of an object,
     an element of such a container, a module-level container, or the result of a function that returns one of those?
@@ -725,6 +737,8 @@ def may_be_stored_state(prog: "Program", fi: "FunctionInfo", e: ast.expr, depth:
         if len(cands) > 3:
             return None
         for g in cands:
+            if memo_decorated(g):
+                return f"the object {g.name}() keeps in its cache ({memo_decorated(g)})"
             for r_ in walk_no_nested(g.node):
                 if isinstance(r_, ast.Return) and r_.value is not None:
                     rv = r_.value
